@@ -1,6 +1,7 @@
 package main
 
 import (
+	"sort"
 	"fmt"
 	"go/token"
 	"strings"
@@ -14,13 +15,14 @@ func init() {
 	register(&Check{
 		ID:  "C16",
 		Run: runC16,
-		Explanation: "Decides the boundary clause 'fails with the decode-limit error when the data is longer than L and never rejects data within the limit' at the places where the decision is taken: (R1 comparators) every return of filter.ErrDecodeLimitExceeded in pkg/filter lies on the edge of a comparison between a produced length and the limit (a value obtained from decodeLimit) whose relation on that edge is exactly `produced > limit` — or, in the byte-wise run-length writer, `limit == written` tested before the next byte is written; `>=` (rejects data of exactly L bytes) and any unrecognised form are reported; (R2 probe byte) baseFilter.copyDecoded reads through an io.LimitedReader whose N is `limit + 1`, the one extra byte that lets `len > limit` see an overrun (N = limit would silently truncate over-long data instead of failing), and guards the +1 against overflow by the `limit == maxInt64` exit; (R3 bounded mode) for maxLen >= 0 copyDecoded copies exactly maxLen bytes with io.CopyN and every decoder's DecodeLength hands its maxLen to copyDecoded / its row loop unchanged. (R4) in the decoders that write their output inside a loop after asking decodeLimit, every write is preceded within the same innermost loop iteration by a comparison involving the limit (a test hoisted out of the loop lets one run step over the limit, after which an equality test never fires); (R5) in StreamDict.decodeLength the bounded fi.DecodeLength(b, maxLen) is reached only for the last pipeline stage. NOT decided: that the produced length is computed correctly by each codec, the prefix property of bounded decoding, and 'reports that the data is too short'.",
+		Explanation: "Decides the boundary clause 'fails with the decode-limit error when the data is longer than L and never rejects data within the limit' at the places where the decision is taken: (R1 comparators) every return of filter.ErrDecodeLimitExceeded in pkg/filter lies on the edge of a comparison between a produced length and the limit (a value obtained from decodeLimit) whose relation on that edge is exactly `produced > limit` — or, in the byte-wise run-length writer, `limit == written` tested before the next byte is written; `>=` (rejects data of exactly L bytes) and any unrecognised form are reported; (R2 probe byte) baseFilter.copyDecoded reads through an io.LimitedReader whose N is `limit + 1`, the one extra byte that lets `len > limit` see an overrun (N = limit would silently truncate over-long data instead of failing), and guards the +1 against overflow by the `limit == maxInt64` exit; (R3 bounded mode) for maxLen >= 0 copyDecoded copies exactly maxLen bytes with io.CopyN and every decoder's DecodeLength hands its maxLen to copyDecoded / its row loop unchanged. (R4) in the decoders that write their output inside a loop after asking decodeLimit, every write is preceded within the same innermost loop iteration by a comparison involving the limit (a test hoisted out of the loop lets one run step over the limit, after which an equality test never fires); (R5) in StreamDict.decodeLength the bounded fi.DecodeLength(b, maxLen) is reached only for the last pipeline stage. (R1, tightened) the length compared with the limit may not contain the byte count of a read from the input (io.ReadFull, Read): that is what was consumed, not what is written (a PNG predictor row carries a filter byte). (R6) on the decode side of pkg/filter (everything reachable from a Decode/DecodeLength method) every io.Copy / io.ReadAll / ReadFrom drains an io.LimitedReader, or sits in a table function — getReaderBytes (encoded input), copyDecoded (only behind limit < 0 or limit == maxInt64); a new unlimited drain of a decoder is reported. NOT decided: that the produced length is computed correctly by each codec, the prefix property of bounded decoding, and 'reports that the data is too short'.",
 		Rules: []string{
 			"C16.R1 comparator shape at every ErrDecodeLimitExceeded return",
 			"C16.R2 LimitedReader N = limit+1 with overflow exit",
 			"C16.R3 bounded mode: io.CopyN(maxLen); maxLen handed on unchanged",
 			"C16.R4 per-iteration limit test in byte-wise producers (shared with C09.R2)",
 			"C16.R5 only the last pipeline stage is bounded",
+			"C16.R6 WMC: decode-side drains are limited readers or table entries behind a no-limit test",
 		},
 		Assumptions: []string{"io.LimitedReader / io.CopyN semantics", "decodeLimit returns maxLen when maxLen >= 0 and the configured limit otherwise (C09.R1 checks the plumbing)"},
 		Technique:   "edge-relation extraction on SSA (comparison operator normalised by operand order and branch taken), value-origin slices for the limit operand",
@@ -80,7 +82,11 @@ func runC16(c *Ctx) {
 			n++
 			construct := fmt.Sprintf("limit error#%d", n)
 			// nearest dominating comparison that involves the limit and a non-constant operand
-			rel, desc := nearestLimitRelation(fn, blk)
+			rel, desc, produced := nearestLimitRelation(fn, blk)
+			if in := inputSideCount(produced, 0); in != "" && rel != "" {
+				r.Bad("C16.R1", fid, construct, p.Pos(ld.Pos()), "the limit error is raised on `"+desc+"`, where the compared length contains the byte count of "+in+": that is the size of what was read from the input, not of what is written to the output, so data of exactly L decoded bytes can be rejected (or longer data accepted)")
+				return
+			}
 			switch rel {
 			case "produced>limit":
 				r.OK("C16.R1", fid, construct, p.Pos(ld.Pos()), "reached exactly on `"+desc+"` (strict)", true)
@@ -93,6 +99,9 @@ func runC16(c *Ctx) {
 			}
 		})
 	}
+	// ---- R6: who may drain a decoder without a bound
+	r.MinInst["C16.R6"] = 4
+	checkDecodeSideDrains(c)
 	// ---- R4: per-byte producers test the limit in every iteration of the innermost writing loop (same rule as C09.R2)
 	r.MinInst["C16.R4"] = 2
 	checkProducingLoopsAs(c, "C16.R4")
@@ -224,7 +233,7 @@ func runC16(c *Ctx) {
 
 // nearestLimitRelation walks the dominating branch edges of blk from the nearest outward and returns the relation that the first
 // comparison between the limit and a non-constant operand establishes on the edge taken.
-func nearestLimitRelation(fn *ssa.Function, blk *ssa.BasicBlock) (rel, desc string) {
+func nearestLimitRelation(fn *ssa.Function, blk *ssa.BasicBlock) (rel, desc string, producedV ssa.Value) {
 	type cand struct {
 		b    *ssa.BinOp
 		want bool
@@ -269,7 +278,7 @@ func nearestLimitRelation(fn *ssa.Function, blk *ssa.BasicBlock) (rel, desc stri
 		}
 	})
 	if best == nil {
-		return "", ""
+		return "", "", nil
 	}
 	b := best.b
 	op := b.Op
@@ -285,17 +294,54 @@ func nearestLimitRelation(fn *ssa.Function, blk *ssa.BasicBlock) (rel, desc stri
 	desc = fmt.Sprintf("%s %s limit", exprName(produced), op)
 	switch op {
 	case token.GTR:
-		return "produced>limit", desc
+		return "produced>limit", desc, produced
 	case token.EQL:
 		// pre-write equality on a loop-carried counter
 		if phi, ok := produced.(*ssa.Phi); ok && phi.Comment != "" || isLoopCarried(produced) {
-			return "limit==written(pre-write)", desc
+			return "limit==written(pre-write)", desc, produced
 		}
-		return "produced==limit", desc
+		return "produced==limit", desc, produced
 	case token.GEQ:
-		return "produced>=limit", desc
+		return "produced>=limit", desc, produced
 	}
-	return "produced" + op.String() + "limit", desc
+	return "produced" + op.String() + "limit", desc, produced
+}
+
+// inputSideCount: the compared length contains the byte count of a read from the input (io.ReadFull, Read, …).
+// That is the size of what was consumed, not of what the decoder writes (a PNG predictor row carries a
+// filter byte that never reaches the output), so a limit test on it is an estimate, not the boundary.
+func inputSideCount(v ssa.Value, d int) string {
+	if v == nil || d > 6 {
+		return ""
+	}
+	switch x := v.(type) {
+	case *ssa.Convert:
+		return inputSideCount(x.X, d+1)
+	case *ssa.BinOp:
+		if x.Op == token.ADD || x.Op == token.SUB {
+			if s := inputSideCount(x.X, d+1); s != "" {
+				return s
+			}
+			return inputSideCount(x.Y, d+1)
+		}
+	case *ssa.Phi:
+		for _, e := range x.Edges {
+			if s := inputSideCount(e, d+1); s != "" {
+				return s
+			}
+		}
+	case *ssa.Extract:
+		if call, ok := x.Tuple.(*ssa.Call); ok && x.Index == 0 {
+			_, ref := callRef(call)
+			if ref == "io.ReadFull" || ref == "io.ReadAtLeast" || strings.HasSuffix(ref, ".Read") || strings.HasSuffix(ref, ".ReadAt") {
+				return ref
+			}
+			if call.Call.IsInvoke() && call.Call.Method != nil && call.Call.Method.Name() == "Read" {
+				return "Read"
+			}
+		}
+	}
+	return ""
 }
 
 func isLoopCarried(v ssa.Value) bool {
@@ -387,4 +433,183 @@ func checkPipelineBoundLastStage(c *Ctx) {
 	if n == 0 {
 		r.Bad("C16.R5", fid, "DecodeLength", p.Pos(fn.Pos()), "UNRESOLVED-ANCHOR: no DecodeLength call in the pipeline loop")
 	}
+}
+
+// ---------------- C16.R6 (round 3 of seeding): who may drain a decoder without a bound ----------------
+
+// c16UnboundedDrains: decode-side functions of pkg/filter that may copy a reader to the end, with the reason.
+// "guarded" entries must sit behind a test that no limit is configured.
+var c16UnboundedDrains = map[string]struct {
+	why     string
+	guarded bool
+}{
+	"pkg/filter.getReaderBytes":        {"drains the ENCODED input (bounded by the stream's stored length), before any decoding", false},
+	"pkg/filter.(baseFilter).copyDecoded": {"the unlimited copies are the no-limit-configured cases (limit < 0, limit == maxInt64)", true},
+}
+
+func isDrainCall(call *ssa.Call) (ref string, src ssa.Value) {
+	_, ref = callRef(call)
+	args := call.Call.Args
+	switch ref {
+	case "io.Copy", "io.CopyBuffer":
+		if len(args) >= 2 {
+			return ref, args[1]
+		}
+	case "io.ReadAll", "io/ioutil.ReadAll":
+		if len(args) >= 1 {
+			return ref, args[0]
+		}
+	case "bytes.Buffer.ReadFrom", "bufio.Writer.ReadFrom":
+		if len(args) >= 2 {
+			return ref, args[1]
+		}
+	}
+	return "", nil
+}
+
+func isLimitedReader(v ssa.Value) bool {
+	for _, l := range valueLeaves(v) {
+		if mi, ok := l.(*ssa.MakeInterface); ok {
+			l = mi.X
+		}
+		t := l.Type().String()
+		if !strings.Contains(t, "io.LimitedReader") {
+			if call, ok := l.(*ssa.Call); ok {
+				if _, ref := callRef(call); ref == "io.LimitReader" {
+					continue
+				}
+			}
+			return false
+		}
+	}
+	return true
+}
+
+func checkDecodeSideDrains(c *Ctx) {
+	p, r := c.P, c.R
+	cg := c.CG()
+	// decode side: functions of pkg/filter reachable from a Decode / DecodeLength method inside pkg/filter
+	side := map[*ssa.Function]bool{}
+	var work []*ssa.Function
+	for _, fn := range p.Funcs {
+		if fn.Pkg == nil || fn.Pkg.Pkg.Path() != modPath+"/pkg/filter" {
+			continue
+		}
+		if fn.Signature.Recv() != nil && (fn.Name() == "Decode" || fn.Name() == "DecodeLength") {
+			work = append(work, fn)
+		}
+	}
+	roots := len(work)
+	for len(work) > 0 {
+		f := work[len(work)-1]
+		work = work[:len(work)-1]
+		if side[f] {
+			continue
+		}
+		side[f] = true
+		for _, o := range cg.Out[f] {
+			if o.Pkg != nil && o.Pkg.Pkg.Path() == modPath+"/pkg/filter" && o.Name() != "Encode" {
+				work = append(work, o)
+			}
+		}
+	}
+	if roots == 0 {
+		r.Bad("C16.R6", "pkg/filter", "anchor", "", "UNRESOLVED-ANCHOR: no Decode/DecodeLength method found in pkg/filter")
+		return
+	}
+	var fns []*ssa.Function
+	for f := range side {
+		fns = append(fns, f)
+	}
+	sort.Slice(fns, func(i, j int) bool { return FuncID(fns[i]) < FuncID(fns[j]) })
+	seenTable := map[string]bool{}
+	n := 0
+	for _, fn := range fns {
+		fn := fn
+		fid := FuncID(fn)
+		k := 0
+		eachInstr(fn, func(blk *ssa.BasicBlock, _ int, i ssa.Instruction) {
+			call, ok := i.(*ssa.Call)
+			if !ok {
+				return
+			}
+			ref, src := isDrainCall(call)
+			if ref == "" {
+				return
+			}
+			k++
+			n++
+			construct := fmt.Sprintf("%s#%d", ref, k)
+			pos := p.Pos(call.Pos())
+			if isLimitedReader(src) {
+				r.OK("C16.R6", fid, construct, pos, "the source is an io.LimitedReader (its N is C16.R2's business)", true)
+				return
+			}
+			ent, ok := c16UnboundedDrains[fid]
+			if !ok {
+				r.Bad("C16.R6", fid, construct, pos, "decode-side code copies a reader to its end without a bound and outside the table of unlimited drains: decoded bytes have to go through copyDecoded (LimitedReader N = limit+1, then the strict comparison), otherwise more than L bytes can be returned without an error")
+				return
+			}
+			seenTable[fid] = true
+			if ent.guarded {
+				// dominated by an edge on which the limit is negative or maxInt64
+				okGuard := false
+				eachInstr(fn, func(_ *ssa.BasicBlock, _ int, ci ssa.Instruction) {
+					b, ok := ci.(*ssa.BinOp)
+					if !ok {
+						return
+					}
+					lx, ly := c16LimitValue(b.X, 0), c16LimitValue(b.Y, 0)
+					if lx == ly {
+						return
+					}
+					other := b.Y
+					if ly {
+						other = b.X
+					}
+					want := false
+					switch {
+					case b.Op == token.LSS && lx && isZeroConst(other): // limit < 0
+						want = true
+					case b.Op == token.EQL && isMaxInt64(other):
+						want = true
+					default:
+						return
+					}
+					for _, e := range condEdges(b, want) {
+						if edgeDominates(e, blk) {
+							okGuard = true
+						}
+					}
+				})
+				if !okGuard {
+					r.Bad("C16.R6", fid, construct, pos, "this unlimited copy is not behind a test that no limit is configured (limit < 0 or limit == maxInt64): "+ent.why)
+					return
+				}
+			}
+			r.OK("C16.R6", fid, construct, pos, "table entry: "+ent.why, true)
+		})
+	}
+	for fid := range c16UnboundedDrains {
+		if !seenTable[fid] {
+			r.Note("C16.R6 table entry %s has no unlimited drain any more", fid)
+		}
+	}
+	if n == 0 {
+		r.Bad("C16.R6", "pkg/filter", "anchor", "", "UNRESOLVED-ANCHOR: no drain call on the decode side of pkg/filter")
+	}
+}
+
+func isZeroConst(v ssa.Value) bool { n, ok := constInt(v); return ok && n == 0 }
+
+func isMaxInt64(v ssa.Value) bool {
+	if n, ok := constInt(v); ok && n == 1<<63-1 {
+		return true
+	}
+	if ld, ok := v.(*ssa.UnOp); ok && ld.Op == token.MUL {
+		if g, ok := ld.X.(*ssa.Global); ok && strings.Contains(strings.ToLower(g.Name()), "maxint64") {
+			return true
+		}
+	}
+	return false
 }
